@@ -780,9 +780,9 @@ impl<'a> Case<'a> {
         match self.a.select_columnar(T, cond.clone(), ColumnarScanOptions { projection: projection.clone(), prefer_columnar: prefer }) {
             Ok(rows) => {
                 columnar_ids = Some(ids_of(&rows).into_iter().collect());
-                if cpath != "vectorized" && !select_ok && select_raw.as_ref() == Some(&ids_of(&rows)) {
-                    // not vectorised: select_columnar delegates to select, whose wrong answer for
-                    // this condition has been reported above
+                if !select_ok && select_raw.as_ref() == Some(&ids_of(&rows)) {
+                    // the same wrong answer as select gave for this condition (select_columnar
+                    // delegates to select unless the whole tree is vectorisable): reported above
                     self.r.count("columnar_mismatch_same_as_select", 1);
                 } else {
                     self.check_set("columnar", "columnar", cond, &rows, &exp, &col_path, &col_run);
@@ -1000,7 +1000,7 @@ impl<'a> Case<'a> {
                             .ok()
                             .map(|r| ids_of(&r).into_iter().collect())
                     };
-                    if direct.as_ref() == Some(&got) && self.columnar_path(cond, true) != "vectorized" && !select_ok {
+                    if direct.as_ref() == Some(&got) && !select_ok && self.a.select(T, cond.clone()).ok().map(|r| ids_of(&r).into_iter().collect::<BTreeSet<u64>>()).as_ref() == Some(&got) {
                         // not vectorised: the router's select_columnar call delegates to select, whose
                         // wrong answer for this condition has been reported by the select check
                         self.r.count("text_mismatch_same_as_direct_columnar_call", 1);
